@@ -60,13 +60,16 @@ def bind(g, mod, law):
             binding[p] = decl
         elif isinstance(decl, IndexedBase) and decl in bases:
             binding[p] = decl
+        elif isinstance(decl, (tuple, list)) and decl and all(isinstance(d, sp.Symbol) and d in syms for d in decl):
+            binding[p] = tuple(decl)        # element-wise declaration: (speed, angle)
         elif stem in by_attr:
             binding[p] = by_attr[stem]
         elif stem in base_by_attr or stem.rstrip("s") in base_by_attr:
             binding[p] = base_by_attr.get(stem) or base_by_attr[stem.rstrip("s")]
         else:
             return "parameter cannot be tied to a law symbol"
-    if len(set(binding.values())) != len(binding):
+    bound = [s for v in binding.values() for s in (v if isinstance(v, tuple) else (v,))]
+    if len(set(bound)) != len(bound):
         return "two parameters tied to the same symbol"
     out = None
     if isinstance(g.output, sp.Symbol) and g.output in syms:
@@ -74,12 +77,12 @@ def bind(g, mod, law):
     elif g.name.startswith("calculate_") and g.name[len("calculate_"):] in by_attr:
         out = by_attr[g.name[len("calculate_"):]]
     else:
-        rest = syms - set(binding.values())
+        rest = syms - set(bound)
         if len(rest) == 1:
             out = next(iter(rest))
-    if out is None or out in binding.values():
+    if out is None or out in bound:
         return "result cannot be tied to a law symbol"
-    if (syms | bases) - set(binding.values()) - {out}:
+    if (syms | bases) - set(bound) - {out}:
         return "law has symbols that are neither parameters nor the result"
     return binding, out
 
@@ -113,7 +116,24 @@ def exact_value(e, symidx, ctx, at=None):
         return e.func(*[exact_value(a, symidx, ctx, at) for a in e.args])
     if isinstance(e, sp.Pow) and e.exp.is_Rational:
         return exact_value(e.base, symidx, ctx, at) ** e.exp
+    if isinstance(e, (sp.sin, sp.cos, sp.tan)):
+        return trig_value(e.func, exact_value(e.args[0], symidx, ctx, at))[0]
     raise Unsupported(type(e).__name__)
+
+
+TRIG_CODE = {"sin": 1, "cos": 2, "tan": 3}
+
+
+def trig_value(func, arg):
+    """Exact rational value of sin/cos/tan at a rational multiple of pi -> (value, n, d) with arg = n/d * pi."""
+    import sympy as sp
+    q = sp.nsimplify(sp.sympify(arg) / sp.pi)
+    if not getattr(q, "is_Rational", False) or abs(int(q.p)) > 10**6 or int(q.q) > 12:
+        raise Unsupported("irrational trigonometric value (argument is not a small rational multiple of pi)")
+    val = func(q * sp.pi)
+    if not getattr(val, "is_Rational", False):
+        raise Unsupported("irrational trigonometric value")
+    return val, int(q.p), int(q.q)
 
 
 def compile_side(e, symidx, out, at=None, ctx=None):
@@ -177,6 +197,16 @@ def compile_side(e, symidx, out, at=None, ctx=None):
         out.append(["sym", leaf, 0])
         if p != 1:
             out.append(["powi", p, 0])
+    elif isinstance(e, (sp.sin, sp.cos, sp.tan)) and ctx is not None:
+        # the value of sin/cos/tan at n/d * pi is a NEW leaf whose recorded value is the exact rational value; TLC
+        # decides the two side conditions  argument = n/d * pi  and  leaf = TrigVal(function, n, d)  (its own table)
+        val, n, d = trig_value(e.func, exact_value(e.args[0], symidx, ctx, at))
+        ctx["vals"].append(val)
+        leaf = len(ctx["vals"])
+        arg_prog = []
+        compile_side(e.args[0], symidx, arg_prog, at, ctx)
+        ctx["trig"].append((arg_prog, [["rat", n, d], ["cst", 1, 0], ["mul", 2, 0]], [TRIG_CODE[e.func.__name__], n, d, leaf]))
+        out.append(["sym", leaf, 0])
     elif isinstance(e, SymQuantity):
         v = si_rational(e)          # an exactly known constant (speed of light ...) is one more leaf
         if v is None or v[1] != 0 or ctx is None:
@@ -185,6 +215,48 @@ def compile_side(e, symidx, out, at=None, ctx=None):
         out.append(["sym", len(ctx["vals"]), 0])
     else:
         raise Unsupported(type(e).__name__)
+
+
+ANGLE_MENU = {
+    frozenset({"cos"}): [(1, 3), (2, 3), (1, 1), (4, 3), (5, 3)],
+    frozenset({"sin"}): [(1, 6), (5, 6), (1, 2), (7, 6), (3, 2)],
+    frozenset({"tan"}): [(1, 4), (3, 4), (5, 4)],
+    frozenset({"sin", "cos"}): [(1, 2), (1, 1), (3, 2), (2, 1)],
+}
+
+
+def special_angles(seed, g, law, binding, seq_params, tup, args):
+    """Arguments for scalar parameters of angle dimension that occur inside sin/cos/tan of the law: rational
+    multiples of pi at which the functions that use them take rational values (so the call stays exact)."""
+    import sympy as sp
+    from sympy.physics.units.definitions.dimension_definitions import angle as angle_type
+    out = {}
+
+    def pick(sym, dim, *key):
+        if dim != angle_type:
+            return None
+        used = frozenset(type(f).__name__ for f in law.atoms(sp.sin, sp.cos, sp.tan) if f.has(sym))
+        menu = ANGLE_MENU.get(used)
+        if not menu:
+            return None
+        n, d = menu[catalogue.stable_hash(seed, g.qualname, "angle", tup, *key) % len(menu)]
+        return catalogue.quantity_of(sp.Rational(n, d) * sp.pi, dim)
+
+    for p in g.params:
+        if p in seq_params or p not in g.inputs:
+            continue
+        dim = catalogue.declared_dimension(g.inputs.get(p))
+        if isinstance(binding[p], tuple):
+            if not isinstance(dim, list) or not isinstance(args.get(p), (list, tuple)) or len(dim) != len(args[p]):
+                continue
+            new = [pick(s, d, p, j) for j, (s, d) in enumerate(zip(binding[p], dim))]
+            if any(x is not None for x in new):
+                out[p] = [x if x is not None else old for x, old in zip(new, args[p])]
+            continue
+        q = pick(binding[p], dim, p)
+        if q is not None:
+            out[p] = q
+    return out
 
 
 def si_rational(x):
@@ -261,7 +333,8 @@ def records_for(g, mod, seed, tuples):
     if isinstance(b, str):
         return [], [b]
     binding, out_sym = b
-    seq_params = [p for p in g.params if not isinstance(binding[p], sp.Symbol)]
+    tup_params = [p for p in g.params if isinstance(binding[p], tuple)]
+    seq_params = [p for p in g.params if not isinstance(binding[p], (sp.Symbol, tuple))]
     try:
         src = inspect.getsource(g.func)
     except OSError:
@@ -290,6 +363,7 @@ def records_for(g, mod, seed, tuples):
             break
         try:
             args = scale_args(seed, g, base, tup)
+            args.update(special_angles(seed, g, law, binding, seq_params, tup, args))
             with time_limit(20):
                 res = g.wrapper(**args)
         except HardTimeout:
@@ -300,37 +374,47 @@ def records_for(g, mod, seed, tuples):
             continue
         # leaves: scalars and sequence elements in parameter order, the result last
         order, symidx = [], {}
+        if any(not isinstance(args[p], (list, tuple)) or len(args[p]) != len(binding[p]) for p in tup_params):
+            und.append("element-wise declaration without an element-wise argument")
+            break
         for p in g.params:
             if p in seq_params:
                 for k2, elem in enumerate(args[p]):
                     order.append(elem)
                     symidx[(binding[p], k2)] = len(order)
+            elif p in tup_params:
+                for k2, elem in enumerate(args[p]):
+                    order.append(elem)
+                    symidx[binding[p][k2]] = len(order)
             else:
                 order.append(args[p])
                 symidx[binding[p]] = len(order)
         order.append(res)
         symidx[out_sym] = len(order)
-        vals = []
+        vals, pik = [], {len(order): 0}      # pik: leaf -> power of pi that multiplies its rational value
         for x in order[:-1]:
             v = si_rational(x)
-            if v is None or v[1] != 0:
+            if v is None or v[1] not in (0, 1):
                 vals = None
                 break
             vals.append(v[0])
+            if v[1]:
+                pik[len(vals)] = 1
         rv = si_rational(res) if vals is not None else None
         if vals is None or rv is None:
             und.append("result or argument is not an exact rational (float / irrational / sequence)")
             continue
         rfr, k = rv
-        ctx = {"vals": [sp.Rational(v.numerator, v.denominator) for v in vals] +
-                       [sp.Rational(rfr.numerator, rfr.denominator) * sp.pi**k], "side": []}
+        pik[len(order)] = k
+        ctx = {"vals": [sp.Rational(v.numerator, v.denominator) * sp.pi**pik.get(i + 1, 0) for i, v in enumerate(vals)] +
+                       [sp.Rational(rfr.numerator, rfr.denominator) * sp.pi**k], "side": [], "trig": []}
         try:
             a_prog, b_prog = [], []
             compile_side(law.lhs, symidx, a_prog, None, ctx)
             compile_side(law.rhs, symidx, b_prog, None, ctx)
         except Unsupported as u:
             und.append(f"law outside the arithmetic fragment: {u}")
-            if "root" not in str(u):
+            if "root" not in str(u) and "trigonometric" not in str(u):
                 break
             continue
         roots = [Fraction(int(r.p), int(r.q)) for r in ctx["vals"][len(vals) + 1:]]
@@ -339,20 +423,18 @@ def records_for(g, mod, seed, tuples):
         if any(x is None for x in pts) or ptn is None:
             und.append("value not representable mod p")
             continue
-        # the result symbol stands for q * pi**k: replace its leaf by that sub-program
-        def with_pi(prog):
-            if k == 0:
-                return prog
+        # the result symbol (and an angle argument) stands for q * pi**k: replace its leaf by that sub-program
+        def with_pi(prog, pik=pik):
             o = []
             for tok in prog:
-                if tok[0] == "sym" and tok[1] == len(order):
-                    o += [tok, ["cst", 1, 0], ["powi", k, 0], ["mul", 2, 0]]
+                if tok[0] == "sym" and pik.get(tok[1], 0):
+                    o += [tok, ["cst", 1, 0], ["powi", pik[tok[1]], 0], ["mul", 2, 0]]
                 else:
                     o.append(tok)
             return o
         rid = f"{g.qualname}#{tup}"
         recs.append({"id": rid, "a": with_pi(a_prog), "b": with_pi(b_prog),
-                     "pt1": [x[0] for x in pts], "pt2": [x[1] for x in pts], "alt": alt,
+                     "pt1": [x[0] for x in pts], "pt2": [x[1] for x in pts], "alt": alt, "trig": [],
                      "pta1": [x[0] if i != len(vals) else ptn[0] for i, x in enumerate(pts)],
                      "pta2": [x[1] if i != len(vals) else ptn[1] for i, x in enumerate(pts)],
                      "_info": {"function": g.qualname, "law": f"{lname}: {law}"[:300],
@@ -361,7 +443,12 @@ def records_for(g, mod, seed, tuples):
                                "roots": [str(r) for r in roots]}})
         for j, (sa, sb) in enumerate(ctx["side"]):      # r**q = radicand, decided by TLC as well
             recs.append({"id": f"{rid}/root{j}", "a": with_pi(sa), "b": with_pi(sb),
-                         "pt1": [x[0] for x in pts], "pt2": [x[1] for x in pts], "alt": False,
+                         "pt1": [x[0] for x in pts], "pt2": [x[1] for x in pts], "alt": False, "trig": [],
+                         "pta1": [x[0] for x in pts], "pta2": [x[1] for x in pts],
+                         "_info": {"function": g.qualname, "side_condition": True}})
+        for j, (sa, sb, tr) in enumerate(ctx["trig"]):  # argument = n/d * pi and leaf = TrigVal(fn, n, d), decided by TLC
+            recs.append({"id": f"{rid}/trig{j}", "a": with_pi(sa), "b": with_pi(sb),
+                         "pt1": [x[0] for x in pts], "pt2": [x[1] for x in pts], "alt": False, "trig": tr,
                          "pta1": [x[0] for x in pts], "pta2": [x[1] for x in pts],
                          "_info": {"function": g.qualname, "side_condition": True}})
     return recs, und
@@ -405,7 +492,13 @@ def main() -> int:
         # self-test records binding the trace machinery: F = m*a with (2, 3, 6) must HOLD, with (2, 3, 7) must FAIL
         prog_a, prog_b = [["sym", 3, 0]], [["sym", 1, 0], ["sym", 2, 0], ["mul", 2, 0]]
         selftest = [{"id": f"__selftest_{n}__", "a": prog_a, "b": prog_b, "pt1": [2, 3, v], "pt2": [2, 3, v], "alt": False,
-                     "pta1": [2, 3, v], "pta2": [2, 3, v]} for n, v in (("holds", 6), ("fails", 7))]
+                     "pta1": [2, 3, v], "pta2": [2, 3, v], "trig": []} for n, v in (("holds", 6), ("fails", 7))]
+        # cos(pi/3) = 1/2: the leaf holding 1/2 HOLDS, the leaf holding 1/3 FAILS (binding of the trigonometric table)
+        third = [["rat", 1, 3], ["cst", 1, 0], ["mul", 2, 0]]
+        for n, fr in (("trig_holds", Fraction(1, 2)), ("trig_fails", Fraction(1, 3))):
+            r1, r2 = residues(fr)
+            selftest.append({"id": f"__selftest_{n}__", "a": third, "b": third, "pt1": [r1], "pt2": [r2], "alt": False,
+                             "pta1": [r1], "pta2": [r2], "trig": [2, 1, 3, 1]})
         path.write_text(json.dumps(recs + selftest))
         cfg = write_cfg(sc / "le.cfg", init="TraceInit", next_="TraceNext", invariants=["Report"],
                         constants=MODEL_CFG)
@@ -413,17 +506,19 @@ def main() -> int:
         run.add_tlc(res, f"trace validation: {len(recs)} recorded calls decided by evaluating both sides of the law in two prime fields")
         verdicts = {v[1]: v[0] for v in res.printed}
         st = (verdicts.pop("__selftest_holds__", None), verdicts.pop("__selftest_fails__", None))
-        if st != ("HOLDS", "FAILS"):
-            raise RuntimeError(f"self-test of the trace specification failed: {st}")
-        run.coverage["selftest"] = "F = m*a: (2,3,6) HOLDS, (2,3,7) FAILS (binding of LawEvalTrace)"
+        st2 = (verdicts.pop("__selftest_trig_holds__", None), verdicts.pop("__selftest_trig_fails__", None))
+        if st != ("HOLDS", "FAILS") or st2 != ("HOLDS", "FAILS"):
+            raise RuntimeError(f"self-test of the trace specification failed: {st} {st2}")
+        run.coverage["selftest"] = "F = m*a: (2,3,6) HOLDS, (2,3,7) FAILS; cos(pi/3): leaf 1/2 HOLDS, leaf 1/3 FAILS (binding of LawEvalTrace)"
         if set(verdicts) != set(info):
             raise RuntimeError("verdicts do not cover the recorded calls")
         counts = {}
         for rid, v in verdicts.items():
             if info[rid].get("side_condition"):
                 if v != "HOLDS":
-                    raise RuntimeError(f"side condition {rid} (exact root) does not hold: {v}")
-                counts["root side conditions HOLD"] = counts.get("root side conditions HOLD", 0) + 1
+                    raise RuntimeError(f"side condition {rid} (exact root / trigonometric value) does not hold: {v}")
+                kind = "trigonometric" if "/trig" in rid else "root"
+                counts[f"{kind} side conditions HOLD"] = counts.get(f"{kind} side conditions HOLD", 0) + 1
                 continue
             counts[v] = counts.get(v, 0) + 1
             run.traces += 1
